@@ -25,6 +25,18 @@ func checkC18(c *Ctx) {
 	gps := p.Func("twins", "genPartitionScenarios")
 	sh := p.Method("twins", "Generator", "Shuffle")
 	cc := p.Func("twins", "checkCommits")
+	if cc == nil {
+		// the verdict function may be a method of the emulated network: found by what it returns ((safe bool, commits int))
+		// among the functions ExecuteScenario calls
+		if es := p.Func("twins", "ExecuteScenario"); es != nil {
+			for _, hf := range helperClosure(p, es, 1) {
+				res := hf.Signature.Results()
+				if hf != es && funcPkgPath(hf) == modPath+"/twins" && res.Len() == 2 && types.Identical(res.At(0).Type(), types.Typ[types.Bool]) && types.Identical(res.At(1).Type(), types.Typ[types.Int]) {
+					cc = hf
+				}
+			}
+		}
+	}
 	if gen == nil || ng == nil || gps == nil || sh == nil || cc == nil {
 		c.Unresolved("C18.1", "twins", "anchor missing")
 		return
@@ -296,6 +308,10 @@ func checkC18(c *Ctx) {
 			}
 			k := fl.K.Key(mu.Key)
 			if strings.HasPrefix(k, kBlockHash) && strings.Contains(k, "executedBlocks[phi@") {
+				okKey = true
+			}
+			// the block at position i may be fetched by a comma-ok helper of the package
+			if ek := expandedKey(fl, mu.Key, in); strings.HasPrefix(ek, kBlockHash) && strings.Contains(ek, "executedBlocks[") && strings.Contains(ek, "phi@") {
 				okKey = true
 			}
 			if hasCmp(fl.At(in), "==", func(s string) bool { return strings.HasPrefix(s, "builtin len(") }, is("c:1")) {
